@@ -6,8 +6,15 @@ J=${1:-6}
 one() {
   d=$1; s=$(basename $d); c=$(python3 -c "import json;print(json.load(open('$d/meta.json'))['property'])")
   if grep -q '"status": "obsolete"' $d/meta.json; then echo "$s $c obsolete (see meta.json)"; return; fi
-  n=$(tools/run_seed.sh $s $c 2>/dev/null | grep -a -c "^VIOLATION")
-  echo "$s $c violations=$n"
+  # the obligation named first in meta.json's caught_by (e.g. O6, P2b) restricts the run; FULL=1 runs the whole check
+  o=$(python3 tools/seed_obligation.py $d/meta.json)
+  if [ -n "$o" ] && [ -z "$FULL" ]; then
+    n=$(tools/run_seed.sh $s $c --only=$o 2>/dev/null | grep -a -c "^VIOLATION")
+    if [ "$n" = "0" ]; then n=$(tools/run_seed.sh $s $c 2>/dev/null | grep -a -c "^VIOLATION"); o="$o->full"; fi
+  else
+    n=$(tools/run_seed.sh $s $c 2>/dev/null | grep -a -c "^VIOLATION"); o=full
+  fi
+  echo "$s $c violations=$n ($o)"
 }
 if [ "$1" = "--one" ]; then one $2; exit 0; fi
 ls -d seeded/*/ | xargs -P $J -n 1 sh tools/run_all_seeds.sh --one
